@@ -1,7 +1,7 @@
 #!/usr/bin/env python3
 """fills meta.json.detected_by of the seeded changes from their result files (result.txt, result_Cxx.txt)"""
 import json, glob, re, os
-for d in sorted(glob.glob('/verif/seeded/C*-[K-N]')):
+for d in sorted(glob.glob('/verif/seeded/C*-[K-Q]')):
     m = json.load(open(d + '/meta.json'))
     det = []
     for rf in sorted(glob.glob(d + '/result*.txt')):
@@ -12,6 +12,6 @@ for d in sorted(glob.glob('/verif/seeded/C*-[K-N]')):
                 vio = [l for l in t.splitlines() if l.startswith('violation')]
                 det.append({"check": mm.group(1) + " quick", "first_violation": (vio[0][10:170] if vio else "")})
     m['detected_by'] = det
-    m['round'] = 6 if d[-1] in 'KL' else 7
+    m['round'] = 6 if d[-1] in "KL" else 7 if d[-1] in "MN" else 8
     json.dump(m, open(d + '/meta.json', 'w'), indent=1)
     print(os.path.basename(d), 'detected' if det else 'NOT DETECTED')
